@@ -202,6 +202,36 @@ func (w *world) deliverOne() {
 	w.net.Deliver(p, n.Key)
 }
 
+// deliverDup re-delivers packets a node has already received: one drawn packet, or everything it received of one
+// drawn (kind, height, round) class.
+func (w *world) deliverDup() {
+	n := w.pickNode("dupto")
+	var seen []*Packet
+	for _, p := range w.net.Pool {
+		if p.Seen[n.Key] {
+			seen = append(seen, p)
+		}
+	}
+	if len(seen) == 0 {
+		return
+	}
+	// bias to recent packets
+	lo := len(seen) - 30
+	if lo < 0 || rapid.IntRange(0, 3).Draw(w.t, "dupold") == 0 {
+		lo = 0
+	}
+	ref := seen[rapid.IntRange(lo, len(seen)-1).Draw(w.t, "dupidx")]
+	if rapid.Bool().Draw(w.t, "dupclass") {
+		for _, p := range seen {
+			if p.Kind == ref.Kind && p.H == ref.H && p.R == ref.R {
+				w.net.Redeliver(p, n.Key)
+			}
+		}
+		return
+	}
+	w.net.Redeliver(ref, n.Key)
+}
+
 func (w *world) deliverBurst() {
 	n := w.pickNode("to")
 	for i := 0; i < 200; i++ {
@@ -479,9 +509,56 @@ func (w *world) byzMaj23() bool {
 	id := c[rapid.IntRange(0, len(c)-1).Draw(w.t, "mid")].id
 	typ := rapid.SampledFrom([]tmproto.SignedMsgType{tmproto.PrevoteType, tmproto.PrecommitType}).Draw(w.t, "mtyp")
 	k := w.s.faulty[rapid.IntRange(0, len(w.s.faulty)-1).Draw(w.t, "mk")]
-	r := rs.Round
+	r := rs.Round + rapid.SampledFrom([]int32{0, 0, 0, -1, -2, 1}).Draw(w.t, "mdr")
+	if r < 0 {
+		r = 0
+	}
 	_ = rs.Votes.SetPeerMaj23(r, typ, PeerID(k), id)
 	w.net.Logf("byz %d claims maj23 %v r=%d %X at node %d", k, typ, r, id.Hash[:4], n.Key)
+	return true
+}
+
+// byzReplayEquivocation: a faulty validator has voted for two values in one round; a peer claims a majority for the
+// value a node has NOT accepted as that validator's vote, which makes the node track the conflicting vote, and the
+// conflicting vote then reaches the node more than once (as gossip from several peers does).
+func (w *world) byzReplayEquivocation() bool {
+	var cands []*Packet
+	for _, p := range w.net.Pool {
+		if !p.Byz || (p.Kind != "prevote" && p.Kind != "precommit") || p.Block == "" {
+			continue
+		}
+		for _, q := range w.net.Pool {
+			if q != p && q.Byz && q.From == p.From && q.Kind == p.Kind && q.H == p.H && q.R == p.R && q.Block != p.Block {
+				cands = append(cands, p)
+				break
+			}
+		}
+	}
+	if len(cands) == 0 {
+		return false
+	}
+	lo := len(cands) - 8
+	if lo < 0 {
+		lo = 0
+	}
+	p := cands[rapid.IntRange(lo, len(cands)-1).Draw(w.t, "rq.pkt")]
+	vm, ok := p.Msg.(*consensus.VoteMessage)
+	if !ok {
+		return false
+	}
+	n := w.pickNode("rq.node")
+	rs := n.RS()
+	if rs.Height != p.H || rs.Votes == nil || !w.net.Allowed(p, n.Key) {
+		return false
+	}
+	claimer := w.s.faulty[rapid.IntRange(0, len(w.s.faulty)-1).Draw(w.t, "rq.k")]
+	_ = rs.Votes.SetPeerMaj23(p.R, vm.Vote.Type, PeerID(claimer), vm.Vote.BlockID)
+	w.net.Logf("byz %d claims maj23 %v r=%d %s at node %d (replayed equivocation)", claimer, vm.Vote.Type, p.R, p.Block, n.Key)
+	for i := rapid.IntRange(1, 3).Draw(w.t, "rq.times"); i > 0; i-- {
+		if !w.net.Deliver(p, n.Key) {
+			w.net.Redeliver(p, n.Key)
+		}
+	}
 	return true
 }
 
@@ -508,9 +585,9 @@ func RunFree(t *rapid.T, opt Options) {
 	case "calm":
 		weights = []string{"sync", "sync", "burst", "one", "fireall", "fire", "class"}
 	case "mixed":
-		weights = []string{"sync", "burst", "burst", "one", "one", "class", "class", "fire", "fire", "fireall", "partition", "heal", "bprop", "bvote", "bvote", "maj23"}
+		weights = []string{"sync", "burst", "burst", "one", "one", "class", "class", "fire", "fire", "fireall", "partition", "heal", "bprop", "bvote", "bvote", "maj23", "dup", "replay-equiv"}
 	default:
-		weights = []string{"burst", "one", "class", "class", "class", "fire", "fire", "fireall", "partition", "heal", "bprop", "bprop", "bvote", "bvote", "bvote", "maj23"}
+		weights = []string{"burst", "one", "class", "class", "class", "fire", "fire", "fireall", "partition", "heal", "bprop", "bprop", "bvote", "bvote", "bvote", "maj23", "dup", "replay-equiv", "replay-equiv"}
 	}
 	prev := w.observe(nil)
 	steps := 0
@@ -986,7 +1063,15 @@ func (w *world) playHeight(shadow *Shadow, h int64, maxRounds int32) {
 			free = 0 // a scripted prefix is not disturbed by free-form steps
 		}
 		for i := free; i > 0; i-- {
-			switch rapid.SampledFrom([]string{"one", "class", "fire", "burst"}).Draw(w.t, "freeact") {
+			switch rapid.SampledFrom([]string{"one", "class", "fire", "burst", "dup", "maj23", "replay-equiv"}).Draw(w.t, "freeact") {
+			case "replay-equiv":
+				if !w.byzReplayEquivocation() {
+					w.deliverDup()
+				}
+			case "dup":
+				w.deliverDup()
+			case "maj23":
+				w.byzMaj23()
 			case "one":
 				w.deliverOne()
 			case "class":
@@ -1194,7 +1279,7 @@ func RunStructured(t *rapid.T, opt Options) {
 	w.finish(test, "structured", 0)
 }
 
-var mixedWeights = []string{"sync", "burst", "burst", "one", "one", "class", "class", "fire", "fire", "fireall", "partition", "heal", "bprop", "bvote", "bvote", "maj23"}
+var mixedWeights = []string{"sync", "burst", "burst", "one", "one", "class", "class", "fire", "fire", "fireall", "partition", "heal", "bprop", "bvote", "bvote", "maj23", "dup", "replay-equiv"}
 
 func (w *world) freeStep() { w.step(mixedWeights) }
 
@@ -1217,6 +1302,12 @@ func (w *world) step(weights []string) {
 		w.partition()
 	case "heal":
 		w.heal()
+	case "dup":
+		w.deliverDup()
+	case "replay-equiv":
+		if !w.byzReplayEquivocation() {
+			w.deliverDup()
+		}
 	case "bprop":
 		if !w.byzPropose() {
 			w.deliverBurst()
